@@ -126,7 +126,8 @@ CHECKS = {
         "slices of slices, documented ValueErrors), compared after every operation (value/exception type, "
         "position, remaining, mode of every reader in the pool, bounds) with a cache-free reference reader, under "
         "two sentinel patterns; plus 5,120 / 100,000 Hypothesis histories of up to 50 ops over 0-64 arbitrary "
-        "bytes (slices, slices of slices, readers dropped while others live on), and chunked readers over chunks of "
+        "bytes (slices, slices of slices, readers dropped while others live on; three in eight also through an "
+        "application subclass of the reader or over a memoryview window the caller releases afterwards), and chunked readers over chunks of "
         "EVERY length 0..8200 (and around 2^14..2^17). Exhaustive over the "
         "stated bounds, sampled beyond.",
         "Trusted: RefReader (pinned by the repository's reader scripts); the tree walk assumes reader state lives "
@@ -139,7 +140,8 @@ CHECKS = {
         "read under two drawn plans (under-reads, over-reads with surplus reads, next_chunk): planned reads return "
         "the written values, surplus reads return 0/empty, chunks read under the same per-chunk plan give the same "
         "results whatever happened to other chunks, no chunk contains 0xFF; readers over plain bytes, over windows of "
-        "larger buffers and over a memoryview shared with a second short-lived reader. Sampled.",
+        "larger buffers and over a memoryview shared with a second short-lived reader; three cases in seven first write "
+        "the same texts UNsanitised as a header of the same writer or as an earlier message of another writer. Sampled.",
         "Trusted: the harness' cp1252/sanitisation expectations; tilde positions in encoded strings are masked.",
         "DESIGN.md 5/C06",
     ),
@@ -243,8 +245,8 @@ CHECKS = {
         "identity oracles over module paths and public names",
         "For each generated tree and each drawn first import (static and generated module paths) a fresh "
         "interpreter imports it and then eolib; walking attributes from eolib along every module path must yield "
-        "sys.modules[path], and every public name (static: ast-derived honouring __all__; generated: the tree's "
-        "types) must be one object in its defining module, its home subpackage and eolib; one first import per "
+        "sys.modules[path], and every public name (static: ast-derived honouring __all__, never fewer than the 23 names pinned from the "
+        "pinned commit; generated: the tree's types) must be one object in its defining module, its home subpackage and eolib; one first import per "
         "tree is made from a zip archive of the package. Sampled: ~400 trees x "
         "<= 4 first imports quick, ~2400 trees thorough.",
         "Trusted: ast-derived list of public names; one interpreter (3.12.1).",
@@ -301,7 +303,8 @@ def main():
         }],
         "checks": checks,
         "notes": "All checks: `vcheck.py <id> --tier quick|thorough`, seed from VERIF_SEED, exit 0/1/2 "
-                 "(2 = harness error, never a violation). Known findings: known_findings.txt.",
+                 "(2 = harness error, never a violation; a library that cannot be imported in a flagged helper interpreter "
+                 "is a violation). Known findings: known_findings.txt.",
         "not_applicable": na,
     }
     path = os.path.join(HERE, "MANIFEST.json")
